@@ -1090,6 +1090,18 @@ def own_cases(rng, n):
             if depth:
                 at = len(ops)
             ops[at:at] = seq
+        if rng.random() < 0.3 and "dropvec" not in ops:
+            # a plain stream left in the middle of a multi-diff batch (YieldBatch state): one or two diffs
+            # of a committed transaction taken, then the stream dropped or left alone while updates go on
+            k = sum(1 for o in ops if o.startswith("sub("))
+            if k < 4:
+                ad = rng.choice(["", "", ",head:3", ",tail:2", ",filter"])
+                seq = ["sub(p%s)" % ad, "tb"] + ["t.push_back(%d)" % rng.randrange(30) for _ in range(rng.randrange(2, 5))] + ["tc"]
+                seq += ["poll(%d)" % k] * rng.randrange(1, 3)
+                if rng.random() < 0.6:
+                    seq.append("dropsub(%d)" % k)
+                seq += ["push_back(%d)" % rng.randrange(30) for _ in range(rng.randrange(0, 3))]
+                ops += seq
         cases.append(head + " :: " + " ; ".join(ops))
     return cases
 
